@@ -80,8 +80,8 @@ func init() {
 			"(R5) ValidatePubsubMessage maps nil error to Accept only, Reject() to Reject, everything else to Ignore.",
 		Rules: []string{
 			"C09-R1 Ens(validateP2PMessage / validateSSVMessage | accept) ⊇ envelope and validator-state tables",
-			"C09-R2 Ens(validateConsensusMessage | accept), Ens(validatePartialSignatureMessage | accept) ⊇ rule tables",
-			"C09-R3 facts-before(every signer-state write) ⊇ R2 + signature; argument shapes; lock held",
+			"C09-R2 Ens(validateConsensusMessage | accept), Ens(validatePartialSignatureMessage | accept) ⊇ rule tables; writes of Share.Quorum / PartialQuorum = 2f+1 / f+1 over len(own committee)",
+			"C09-R3 facts-before(every signer-state write) ⊇ R2 + signature; argument shapes; resets only forward (partial-signature ResetSlot only for a strictly newer slot); lock held",
 			"C09-R4 argument identity between verifySignature and DecodeNetworkMsg",
 			"C09-R5 result mapping of ValidatePubsubMessage",
 			"C09-R6 lock discipline: lock-table access inside one critical section; per-ID lock taken before the table lock is released; stateful validation under the per-ID lock",
